@@ -30,7 +30,7 @@ def run(ctx):
         ok_make, make_out = vlib.coq_make(ctx, "Libfuncs")
         if ok_make:
             pr = vlib.check_properties_file(ctx, os.path.join(vlib.COQ, "Props/C06.v"),
-                                            vlib.cone_files("Libfuncs"))
+                                            vlib.cone_files("Libfuncs"), timeout=900)
     else:
         # Spec is needed for the case files even when the translator is broken
         vlib.coq_make(ctx, "Spec")
